@@ -174,7 +174,10 @@ def modifies_known_mutable(obj: t.Any, attr: str) -> bool:
     False
     """
     for typespec, unsafe in _mutable_spec:
-        if isinstance(obj, typespec):
+        # also the unbound methods of the types, dict.update(d, ...)
+        if isinstance(obj, typespec) or (
+            isinstance(obj, type) and issubclass(obj, typespec)
+        ):
             return attr in unsafe
     return False
 
